@@ -323,6 +323,7 @@ public:
       c.total_time = dt_stable * 64.;
     }
     c.cfl = 0.2;
+    bool caproni_box = false;
     if (prop == "C09") {
       // the property's premise: one thread; boxes whose sides are not dyadic
       // multiples of the cell count
@@ -336,8 +337,9 @@ public:
       c.live_output = r.chance(0.3);
       c.live_mask = (int)r.below(16);
       c.gravity = r.chance(0.2);
-      c.source_type = (int)r.below(5);
+      c.source_type = (int)r.below(6);
       c.feedback = c.source_type == 3 && r.chance(0.7);
+      caproni_box = c.source_type == 5;
       if (r.chance(0.8) && c.dyadic) {
         c.dyadic = false;
         for (int k = 0; k < 3; ++k) {
@@ -345,6 +347,23 @@ public:
           c.anchor[k] = c.sides[k] * r.uniform(-1., 1.);
         }
       }
+    }
+    if (caproni_box) {
+      // the Caproni distribution places its sources on galactic scales
+      // (radius 5.7e18 m, Gaussian width 3.1e18 m): blow the box (and the
+      // time step, which scales with the cell size) up so that it contains
+      // them - sources outside the box are not a valid set-up
+      double smin = 1e300;
+      for (int k = 0; k < 3; ++k)
+        smin = std::min(smin, c.sides[k]);
+      const double f = 6.4e19 / smin;
+      for (int k = 0; k < 3; ++k) {
+        c.sides[k] *= f;
+        c.anchor[k] = -0.5 * c.sides[k];
+      }
+      c.dyadic = false;
+      c.dt *= f;
+      c.total_time *= f;
     }
     if (prop == "C14") {
       // system level: the process dies at a numbered file operation of a
